@@ -35,6 +35,6 @@ def run(tier, seed):
     rep.explanation = ("Mixed. Deductive: side conditions of the substitution lemma for the normalize rule (the regex literals read from the source match CR, CRLF as one unit, and NUL; replacements contain neither; the substitutions are chained from state.src back to state.src) "
                        "and ORDER normalize-first, so no CR or NUL reaches any later rule; the physical-column invariant CONS (bsCount + sCount == PhysCol(first content character), tab stops counted from the start of the physical line) is re-established by blockquote at both marker sites, first and continuation lines, all four marker/blank/tab cases (GUARD obligations, pyvc + z3 with mod-4 arithmetic). "
                        "Bounded: the equivalences themselves as relational contracts on parse/render over the line universe and the constructed marker lines.")
-    rep.trusted_base = STD_TRUST
-    rep.assumptions = ["re.sub substitution lemma for normalize (assumed)"]
+    rep.trusted_base += STD_TRUST
+    rep.assumptions += ["re.sub substitution lemma for normalize (assumed)"]
     return rep
